@@ -191,6 +191,7 @@ func init() {
 	}
 	Register(&Engine{
 		ID:       "C03",
+		Anchors:  []string{"tree.go:Remove", "node.go:clean", "node.go:buildIndexes", "node.go:removeNodes", "tree.go:Routes", "tree.go:Clean"},
 		Cases:    histCases(400, 24000),
 		Run:      func(c *Ctx) { runHistory(c, "C03") },
 		Directed: c03Directed,
@@ -209,6 +210,7 @@ func init() {
 	})
 	Register(&Engine{
 		ID:       "C04",
+		Anchors:  []string{"method.go:buildMethods", "method.go:AllowHeader", "method.go:Methods", "method.go:recountMethods", "node.go:splitNode"},
 		Cases:    histCases(300, 16000),
 		Run:      func(c *Ctx) { runHistory(c, "C04") },
 		Directed: c04Directed,
@@ -224,6 +226,7 @@ func init() {
 	})
 	Register(&Engine{
 		ID:       "C17",
+		Anchors:  []string{"tree.go:Add", "tree.go:checkMethods", "node.go:checkAmbiguous", "segment.go:Segment.IsAmbiguousPrefix", "method.go:addMethods"},
 		Cases:    histCases(300, 16000),
 		Run:      func(c *Ctx) { runHistory(c, "C17") },
 		Directed: c17Directed,
